@@ -40,7 +40,7 @@ def spec_text(W):
     L.append('#define R __CPROVER_return_value')
     L.append('/* ghost: the (absolute) value whose text is produced; every contract ties its value argument to it,')
     L.append('   so all digit terms of a caller proof are over one symbol (no division reasoning needed there) */')
-    L.append('extern UT cv_gv;')
+    L.append('extern UT cv_gv; unsigned long cv_parse_abs; int cv_parse_neg; int cv_rt_ok;')
     L.append('#define G cv_gv')
     return '\n'.join(L) + '\n'
 
@@ -56,7 +56,7 @@ def contracts_text(W):
     o = [spec_text(W)]
     # ---- intW_str_length
     o.append('uint8_t strlen_contract(UT v)\n__CPROVER_assigns()\n'
-             '__CPROVER_ensures(R == NDIG(v))\n;\nUT cv_gv;')
+             '__CPROVER_ensures(R == NDIG(v))\n;\nUT cv_gv; unsigned long cv_parse_abs; int cv_parse_neg; int cv_rt_ok;')
     # ---- convert (plain)
     o.append('void convert_contract(char* e, UT v, uint8_t n)\n'
              '__CPROVER_requires(v == G && 1 <= n && n <= MAXDIG && LT_P10(G,n))\n'
@@ -125,6 +125,35 @@ def contracts_text(W):
                  '__CPROVER_ensures(R == %s + 1)\n' % n +
                  '__CPROVER_ensures(b[0] == \'-\')\n' + text_clauses(1, 'G', grouped) + ';\n'
                  '#endif')
+    # ---- std::string variants: a wrapper (compiled with the unit) copies the returned string into `out` and converts it
+    #      back with celma::format::stringTo<T>; the contract pins the text and the round trip
+    o.append('extern unsigned long cv_parse_abs; extern int cv_parse_neg; extern int cv_rt_ok;')
+    for grouped in (False, True):
+        p = 'g' if grouped else ''
+        garg = ', char g' if grouped else ''
+        n = 'GLEN(N0)' if grouped else 'N0'
+        rt = '' if grouped else '__CPROVER_ensures(cv_rt_ok == 1)  /* converting the text back (stringTo<T>) yields the original value */\n'
+        frame = '__CPROVER_assigns(__CPROVER_object_whole(b), cv_parse_abs, cv_parse_neg, cv_rt_ok)\n'
+        o.append('size_t %ssutos_contract(UT v%s, char* b)\n' % (p, garg) +
+                 '__CPROVER_requires(v == G && NDIG(G) == N0)\n'
+                 '__CPROVER_requires(__CPROVER_is_fresh(b, %s + 1))\n' % n + frame +
+                 '__CPROVER_ensures(R == %s)  /* std::string::length() */\n' % n + text_clauses(0, 'G', grouped) + rt + ';')
+        o.append('#if SGN == 0\n'
+                 'size_t %ssitos_contract(ST v%s, char* b)\n' % (p, garg) +
+                 '__CPROVER_requires(v == 0 && G == 0)\n__CPROVER_requires(__CPROVER_is_fresh(b, 2))\n' + frame +
+                 '__CPROVER_ensures(R == 1 && b[0] == \'0\' && b[1] == 0)\n' + rt + ';\n'
+                 '#elif SGN == 1\n'
+                 'size_t %ssitos_contract(ST v%s, char* b)\n' % (p, garg) +
+                 '__CPROVER_requires(v > 0 && (UT)v == G && NDIG(G) == N0)\n'
+                 '__CPROVER_requires(__CPROVER_is_fresh(b, %s + 1))\n' % n + frame +
+                 '__CPROVER_ensures(R == %s)\n' % n + text_clauses(0, 'G', grouped) + rt + ';\n'
+                 '#else\n'
+                 'size_t %ssitos_contract(ST v%s, char* b)\n' % (p, garg) +
+                 '__CPROVER_requires(v < 0 && ABS(v) == G && NDIG(G) == N0)\n'
+                 '__CPROVER_requires(__CPROVER_is_fresh(b, %s + 2))\n' % n + frame +
+                 '__CPROVER_ensures(R == %s + 1)\n' % n +
+                 '__CPROVER_ensures(b[0] == \'-\')\n' + text_clauses(1, 'G', grouped) + rt + ';\n'
+                 '#endif')
     # ---- covering obligation of the case split + spec self-consistency
     o.append('void h_cover(void) { UT v; ST s;\n'
              '  __CPROVER_assert(1 <= NDIG(v) && NDIG(v) <= MAXDIG, "case split covers every value: 1 <= NDIG(v) <= MAXDIG");\n'
@@ -146,6 +175,8 @@ def harness_text(W, grouped):
         g, gd = '', ''
     return '''// generated harness: exactly one call of the function under contract per entry point
 #include "library/format/detail/%(stem)s.cpp"
+#include "celma/format/string_to.hpp"
+#define MAXTXT (N0 + (N0 - 1) / 3 + 2)   /* text + sign + terminator of this instance */
 typedef uint%(W)d_t UT; typedef int%(W)d_t ST;
 using namespace celma::format::detail;
 #define CANARY __CPROVER_assert(0, "CV_CANARY")
@@ -162,8 +193,20 @@ void h_convert() { GHOST; char buf[GL]; char g; cv_anon::convert(buf + GL - 1, c
 void h_utos() { GHOST; char* b; UT v;%(gd)s %(U)s(b, v%(g)s); CANARY; }
 void h_negtos() { GHOST; char* b; ST v;%(gd)s %(N)s(b, v%(g)s); CANARY; }
 void h_itos() { GHOST; char* b; ST v;%(gd)s %(I)s(b, v%(g)s); CANARY; }
+// std::string variants: copy the returned string out (length() + 1 bytes incl. the terminator), then the round trip
+extern int cv_rt_ok;
+#define COPY_OUT size_t n = s.length(); for (size_t i = 0; i < MAXTXT + 1; ++i) if (i <= n) b[i] = s.c_str()[i];
+#ifndef GROUPED
+#define ROUNDTRIP(T, neg) cv_parse_abs = cv_gv; cv_parse_neg = (neg); { T back = celma::format::stringTo( s, (T*)0); cv_rt_ok = (back == v); }
+#else
+#define ROUNDTRIP(T, neg)
+#endif
+size_t w_sutos(UT v%(garg)s, char* b) { std::string s = %(U)s(v%(g)s); COPY_OUT ROUNDTRIP(UT, 0) return n; }
+size_t w_sitos(ST v%(garg)s, char* b) { std::string s = %(I)s(v%(g)s); COPY_OUT ROUNDTRIP(ST, v < 0) return n; }
+void h_sutos() { GHOST; char* b; UT v;%(gd)s w_sutos(v%(g)s, b); CANARY; }
+void h_sitos() { GHOST; char* b; ST v;%(gd)s w_sitos(v%(g)s, b); CANARY; }
 }
-''' % dict(stem=stem, W=W, U=U, N=N, I=I, g=g, gd=gd)
+''' % dict(stem=stem, W=W, U=U, N=N, I=I, g=g, gd=gd, garg=(', char g' if grouped else ''))
 
 
 class Unit:
@@ -184,6 +227,11 @@ class Unit:
             self.clauses['c13_w%d.c' % W] = contracts_text(W).splitlines()
             self.files[(W, False)] = scratch.write('gen/h13_w%d.cpp' % W, harness_text(W, False))
             self.files[(W, True)] = scratch.write('gen/h13_w%d_g.cpp' % W, harness_text(W, True))
+        # T-INST: explicit specialisations that differ only in the return type collide in the front end's mangling;
+        # they become overloads selected by a tag pointer (the type -> std::sto* mapping, which is what is verified, is untouched)
+        self.shadow.extract('celma/format/string_to.hpp', [
+            Rule('T-INST-primary', r'^template< typename T> T stringTo\( const std::string& std\);\n', '', 1),
+            Rule('T-INST-spec', r'template<> t stringTo< t>\( const std::string& str\)', 'inline t stringTo( const std::string& str, t*)', 1)])
         self.witnesses = []
         self.witness()
 
@@ -245,7 +293,7 @@ def make_build(unit, W, grouped, kind, n0, sgn):
                      [unit.files[(W, grouped)], '-o', 'cpp.gb'], wd, 'C13 harness TU w%d' % W)
         core.goto_cc(defs + [unit.files[(W, 'c')], '-o', 'c.gb'], wd, 'C13 contracts w%d' % W)
         h = {'strlen': 'h_strlen', 'convert': 'h_convert', 'utos': 'h_utos', 'negtos': 'h_negtos',
-             'itos': 'h_itos'}[kind]
+             'itos': 'h_itos', 'sutos': 'h_sutos', 'sitos': 'h_sitos'}[kind]
         core.goto_cc(['cpp.gb', 'c.gb', '--function', h, '-o', 'l.gb'], wd, 'link')
         syms = core.symbols('l.gb', wd)
         s_conv = core.resolve_symbol(syms, conv_rx)
@@ -260,6 +308,9 @@ def make_build(unit, W, grouped, kind, n0, sgn):
             rep = [(s_conv, pc + 'convert_contract'), (s_len, 'strlen_contract')]
         elif kind == 'negtos':
             enf = (core.resolve_symbol(syms, rx_fn(N) + 'ptr_char,'), p + 'negtos_contract')
+            rep = [(s_conv, pc + 'convert_contract'), (s_len, 'strlen_contract')]
+        elif kind in ('sutos', 'sitos'):
+            enf = ('w_' + kind, p + kind + '_contract')
             rep = [(s_conv, pc + 'convert_contract'), (s_len, 'strlen_contract')]
         elif kind == 'itos':
             enf = (core.resolve_symbol(syms, rx_fn(I) + 'ptr_char,'), p + 'itos_contract')
@@ -311,6 +362,22 @@ def jobs(unit, tier, only=None):
                     out.append(Job('c13_%s_itos_pos_n%d' % (tag, n), 'intNNtoString(char*,v)', p + 'itos_contract',
                                    make_build(unit, W, grouped, 'itos', n, 1), backend='sat', timeout=300,
                                    instance={'width': W, 'digits': n, 'sign': '+', 'grouped': grouped}))
+            # std::string variants + round trip cost 15-30 s per instance (heap-backed stand-in string under dfcc): the quick
+            # tier takes the digit counts where the hand-unrolled code changes shape (1, first grouped length, the longest
+            # negative / positive / unsigned texts), the thorough tier every digit count
+            sel = set(range(1, M + 1)) if tier == 'thorough' else {1, 4 if grouped else 2, NEG_MAXDIG[W], POS_MAXDIG[W], M}
+            for n in sorted(x for x in sel if x <= M):
+                inst = {'width': W, 'digits': n, 'grouped': grouped, 'variant': 'std::string'}
+                out.append(Job('c13_%s_sutos_n%d' % (tag, n), 'uintNNtoString(v) -> std::string' + ('' if grouped else ' + stringTo<T> round trip'), p + 'sutos_contract',
+                               make_build(unit, W, grouped, 'sutos', n, 0), backend='sat', timeout=300, unwind=max(n + (n - 1) // 3 + 8, M + (M - 1) // 3 + 6), instance=inst))
+                if n <= NEG_MAXDIG[W]:
+                    out.append(Job('c13_%s_sitos_neg_n%d' % (tag, n), 'intNNtoString(v) -> std::string' + ('' if grouped else ' + stringTo<T> round trip'), p + 'sitos_contract',
+                                   make_build(unit, W, grouped, 'sitos', n, 2), backend='sat', timeout=300, unwind=max(n + (n - 1) // 3 + 8, M + (M - 1) // 3 + 6), instance=dict(inst, sign='-')))
+                if n <= POS_MAXDIG[W]:
+                    out.append(Job('c13_%s_sitos_pos_n%d' % (tag, n), 'intNNtoString(v) -> std::string' + ('' if grouped else ' + stringTo<T> round trip'), p + 'sitos_contract',
+                                   make_build(unit, W, grouped, 'sitos', n, 1), backend='sat', timeout=300, unwind=max(n + (n - 1) // 3 + 8, M + (M - 1) // 3 + 6), instance=dict(inst, sign='+')))
+            out.append(Job('c13_%s_sitos_zero' % tag, 'intNNtoString(v) -> std::string' + ('' if grouped else ' + stringTo<T> round trip'), p + 'sitos_contract',
+                           make_build(unit, W, grouped, 'sitos', 1, 0), backend='sat', timeout=120, unwind=M + (M - 1) // 3 + 6, instance={'width': W, 'value': 0, 'grouped': grouped, 'variant': 'std::string'}))
             out.append(Job('c13_%s_itos_zero' % tag, 'intNNtoString(char*,v)', p + 'itos_contract',
                            make_build(unit, W, grouped, 'itos', 1, 0), backend='sat', timeout=120,
                            instance={'width': W, 'value': 0, 'grouped': grouped}))
